@@ -57,6 +57,7 @@ var Prop = &engine.Prop{
 		{Name: "double-stop", Quick: 8, Thorough: 160, Fn: doubleStopCase},
 		{Name: "multi-exec", Quick: 60, Thorough: 2400, Fn: multiExecCase},
 		{Name: "ctx-handoff", Quick: 400, Thorough: 16000, Fn: ctxHandoffCase},
+		{Name: "shared-callctx", Quick: 300, Thorough: 12000, Fn: sharedCallCtxCase},
 	},
 	Floors: map[string]int64{
 		"queued_behind_running":   500,
